@@ -50,4 +50,6 @@ func bconn(c Val) Val {
 	return L(outs...)
 }
 
-func main() { Main(map[string]func(Val) Val{"C13_bconn": bconn}) }
+var commands = map[string]func(Val) Val{"C13_bconn": bconn}
+
+func main() { Main(commands) }
